@@ -555,8 +555,6 @@ def gen_sequences(rng, c):
     kind = rng.choice(["values", "values", "other", "other", "values+other", "resume"])
     base = json.loads(json.dumps(c))
     base.pop("mut", None)
-    if kind == "resume" and any(fd.get("int") for fd in c["funcs"]):
-        kind = "values"       # cleanup=False is refused when a PipeFunc carries internal_shape (reported separately)
     if kind == "resume":
         base["prev"], base["cleanup"] = [_request_of(c)], False
     elif kind == "values":
